@@ -66,5 +66,9 @@ Definition atsp_rewardok (i : atsp_inst) (acts : list nat) : bool :=
   forallb (fun a => Nat.ltb a (length (acost i))) acts.
 
 (* ---------------------------------------------------------------- check_solution_validity *)
-(* arange(actions.size(1)) == actions.sort(1)[0]; the instance is not looked at *)
-Definition atsp_checker (acts : list nat) : bool := sorted_is_arange acts.
+(* actions.size(1) == td["cost_matrix"].size(-1)  and  arange(actions.size(1)) == actions.sort(1)[0].
+   (The length test was added by the fix 5d5f57a -- recorded as fixed in known_findings.json; before it a tour that
+   omitted the highest-numbered nodes was accepted.) *)
+Definition atsp_cols (i : atsp_inst) : nat := length (hd [] (acost i)).     (* cost_matrix.size(-1) *)
+Definition atsp_checker (i : atsp_inst) (acts : list nat) : bool :=
+  Nat.eqb (length acts) (atsp_cols i) && sorted_is_arange acts.
